@@ -144,12 +144,20 @@ def _mk_ret(t, drop):
     return _rc
 
 
-def build_aliases(table, order):
+def build_aliases(table, order, prelife=False):
+    """prelife: every name of the table has been a decorator alias before it got its definition (or was
+    deleted again): what a name was earlier must not matter."""
     from xonsh.aliases import Aliases
     from xonsh.procs.specs import SpecAttrDecoratorAlias
 
     al = Aliases()
     tags = {}
+    if prelife:
+        for n in order:
+            al[n] = SpecAttrDecoratorAlias({}, "verif decorator (earlier life)", name=n)
+        for n in order:
+            if table[n][0] == "undef":
+                del al[n]
     defs = {DEC1: ("decfix",), DEC2: ("decfix",)}
     defs.update({n: table[n] for n in order})
     # decorators first or last depending on order parity: definition order must not matter
@@ -259,7 +267,7 @@ def _check_table(kinds_tuple):
             user_decs.append(stripped.pop(0))
         first = None
         for oi, order in enumerate(_ORDERS):
-            al = build_aliases(table, order)
+            al = build_aliases(table, order, prelife=(oi == len(_ORDERS) - 1))
             XSH.commands_cache.aliases = al
             decs = []
             got = _observe(lambda: al.get(list(stripped), None, decorators=decs))
